@@ -17,6 +17,8 @@ are false of the pinned source (namespace `Neg`): they are proved
 import LinVerif.Lemmas.C06Conc
 import LinVerif.Lemmas.C06WriteThrough
 import LinVerif.Lemmas.C06Reset
+import LinVerif.Lemmas.C06Micro
+import LinVerif.Lemmas.C06Sync
 import LinVerif.Model.FanOutPark
 import LinVerif.Generated.C06
 
@@ -837,6 +839,242 @@ theorem init_groups_tie :
       ["mkDirFunc", "listDirFunc", "newConsumerGroupFunc"] ∧
     Generated.C06.newFanOutQueueCalls.getLast? = some "fq.initConsumerGroups" := by decide
 
+
+/-! ## Round 8: micro-step interleavings, Sync over arbitrary iteration orders, meta-page crash
+images, the expiry loop (Model/FanOutMicro.lean, Model/FanOutRepl.lean) -/
+
+open LinVerif.FanOut.Micro in
+/-- Consume ‖ Ack ‖ Sync ‖ Put at the granularity of single loads / stores of shared fields, the
+lock regions of the pinned source (`access_tie`): from ANY state satisfying the sequential invariants,
+after ANY enabled schedule of micro-steps of the four threads (no explicit index reset) — at every
+intermediate point, threads mid-method included — the queue ack is in [-1, appended], every group has
+queue ack ≤ ack ≤ consumed ≤ appended, and whenever all threads are idle every meta page holds its
+group's in-memory positions (so reopen / stop + create restore exactly them). -/
+theorem micro_invariants (s : State) (hb : Base s) (ho : Order s) (ha : Above s) (ops : List MOp)
+    (hr : ∀ o ∈ ops, o.isReset = false) (ms : MState)
+    (h : mrun Shape.pinned (MState.ofState s) ops = some ms) :
+    -1 ≤ ms.sh.qack ∧ ms.sh.qack ≤ ms.sh.appended ∧
+    (∀ g x, ms.sh.grp g = some x → ms.sh.qack ≤ x.ack ∧ x.ack ≤ x.consumed ∧ x.consumed ≤ ms.sh.appended) ∧
+    (ms.quiet = true → ∀ g x, ms.sh.grp g = some x → ms.sh.pg g = some { consumed := x.consumed, ack := x.ack }) := by
+  have h0 : Inv (MState.ofState s) :=
+    Inv.ofState s hb.q.ackLo hb.q.ackLe (fun g x hx => ⟨ha g x hx, ho.live hb g x hx⟩) hb.grp
+  have hi := Inv.run ops _ ms h0 hr h
+  exact ⟨hi.qlo, hi.qle, hi.ord, fun hq g x hx => hi.quiet_write_through hq g x hx⟩
+
+open LinVerif.FanOut.Micro in
+/-- (2) under the interleaving: a micro-step changes a group's consumed position only if it is the
+Store of consume(), and then from c to c+1 ≤ appended, c the position at THAT moment (the head loaded
+before parking plays no role); the call then returns exactly that sequence (`cPut`). -/
+theorem micro_consume_next (s : State) (hb : Base s) (ho : Order s) (ha : Above s) (ops : List MOp)
+    (hr : ∀ o ∈ ops, o.isReset = false) (ms ms' : MState) (o : MOp) (hro : o.isReset = false)
+    (h : mrun Shape.pinned (MState.ofState s) ops = some ms) (hs : mstep Shape.pinned ms o = some ms')
+    (k : Nat) (x x' : Group) (hx : ms.sh.grp k = some x) (hx' : ms'.sh.grp k = some x') :
+    x'.consumed = x.consumed ∨
+    (o = .cStore ∧ x'.consumed = x.consumed + 1 ∧ x'.consumed ≤ ms'.sh.appended ∧ ms'.c = .stored k x'.consumed) := by
+  have h0 : Inv (MState.ofState s) :=
+    Inv.ofState s hb.q.ackLo hb.q.ackLe (fun g x hx => ⟨ha g x hx, ho.live hb g x hx⟩) hb.grp
+  have hi := Inv.run ops _ ms h0 hr h
+  have hi' := hi.step hro hs
+  rcases consumed_step Shape.pinned hro hs k with e | ⟨e, hh, app, x0, hc, hx0, hle, hg', hc'⟩
+  · left; rw [hx, hx'] at e; simpa using e
+  · right
+    rw [hx] at hx0; cases hx0
+    rw [hx'] at hg'; cases hg'
+    have hci := hi.ci
+    rw [hc] at hci
+    obtain ⟨x1, hx1, hh1, _⟩ := hci
+    rw [hx] at hx1; cases hx1
+    exact ⟨e, hh1, (hi'.ord k _ hx').2.2, hc'⟩
+
+open LinVerif.FanOut.Micro in
+/-- (4c) under the interleaving: a micro-step that moves the queue ack is the final step of Sync,
+it moves it forward, and the new value is at or below the CURRENT ack of every group — although
+Sync read the acks one by one, without any group lock, in an arbitrary iteration order, while acks
+and consumes went on in between. -/
+theorem micro_queue_ack (s : State) (hb : Base s) (ho : Order s) (ha : Above s) (ops : List MOp)
+    (hr : ∀ o ∈ ops, o.isReset = false) (ms ms' : MState) (o : MOp) (hro : o.isReset = false)
+    (h : mrun Shape.pinned (MState.ofState s) ops = some ms) (hs : mstep Shape.pinned ms o = some ms') :
+    ms'.sh.qack = ms.sh.qack ∨
+    (o = .sSet ∧ ms.sh.qack < ms'.sh.qack ∧ ms'.sh.qack ≤ ms'.sh.appended ∧
+      ∀ g x, ms'.sh.grp g = some x → ms'.sh.qack ≤ x.ack) := by
+  have h0 : Inv (MState.ofState s) :=
+    Inv.ofState s hb.q.ackLo hb.q.ackLe (fun g x hx => ⟨ha g x hx, ho.live hb g x hx⟩) hb.grp
+  have hi' := (Inv.run ops _ ms h0 hr h).step hro hs
+  rcases qack_step Shape.pinned hro hs with e | ⟨e, hlt, _⟩
+  · exact Or.inl e
+  · exact Or.inr ⟨e, hlt, hi'.qle, fun g x hx => (hi'.ord g x hx).1⟩
+
+open LinVerif.FanOut.Micro in
+/-- a Sync that completes between the queue part and the group parts of an index reset, with no
+Put in between, cannot move the queue ack: `SetAcknowledgedSeq` refuses everything when
+acknowledged = appended -/
+theorem micro_sync_during_reset_noop (sh : Sh) (h : sh.qack = sh.appended) (acc : Int) : sh.setAck acc = sh := by
+  unfold Sh.setAck
+  split
+  · rename_i hc; omega
+  · rfl
+
+/-- `Sync` over arbitrary group sets and arbitrary map iteration orders: the candidate is exactly
+the minimum of the appended position and ALL groups' acks (never-acknowledged groups at -1 included),
+whatever order the map is iterated in. -/
+theorem sync_any_iteration_order (s : State) (live' : List (Nat × Group)) (h : s.live.Perm live') :
+    ({ s with live := live' } : State).sync.q = s.sync.q ∧
+    minAck s.q.appended live' = minAck s.q.appended s.live ∧
+    (∀ g grp, lookup s.live g = some grp → minAck s.q.appended s.live ≤ grp.ack) ∧
+    (minAck s.q.appended s.live = s.q.appended ∨ ∃ k g, (k, g) ∈ s.live ∧ minAck s.q.appended s.live = g.ack) :=
+  ⟨sync_perm s live' h, (minAck_perm h _).symm, fun g grp hl => sync_candidate_le s g grp hl, minAck_attained _ _⟩
+
+/-- a group that never acknowledged anything (ack -1 on a fresh queue — e.g. a follower that is down)
+is not "unset": while it exists, Sync leaves the whole state alone, so GC removes nothing it needs -/
+theorem sync_never_acked_group_holds_queue_ack (s : State) (g : Nat) (grp : Group)
+    (hl : lookup s.live g = some grp) (hneg : grp.ack < 0) : (step Variant.fixed s .sync).1 = s :=
+  sync_blocked_by_negative_ack s g grp hl hneg
+
+/-- persistence layout: `Ack` is crash-atomic on the meta page (any prefix of its two stores leaves
+the old or the new positions), and the restore path of `NewConsumerGroup` re-reads a page torn by its
+own stores to the same positions. -/
+theorem meta_page_crash_atomic (v : Variant) (hv : v.liftConsumed = true) (grp : Group) (n qack : Int) (m : Meta) (k : Nat) :
+    (crashPage { consumed := grp.consumed, ack := grp.ack } (ackStores grp n) k = { consumed := grp.consumed, ack := grp.ack } ∨
+     crashPage { consumed := grp.consumed, ack := grp.ack } (ackStores grp n) k = { consumed := grp.consumed, ack := n }) ∧
+    crashPage { consumed := grp.consumed, ack := grp.ack } (consumeStores (grp.consumed + 1)) k ∈
+      [{ consumed := grp.consumed, ack := grp.ack }, { consumed := grp.consumed + 1, ack := grp.ack }] ∧
+    newGroup v qack (some (crashPage m (newGroupStores v qack (some m)) k)) = newGroup v qack (some m) := by
+  refine ⟨?_, ?_, newGroup_crash_idem v hv qack m k⟩
+  · rw [ack_crash_page]; split
+    · exact Or.inl rfl
+    · exact Or.inr rfl
+  · match k with
+    | 0 => simp [crashPage, consumeStores]
+    | k + 1 => simp [crashPage, consumeStores, Meta.apply]
+
+/-- observation (outside the close/reopen quantifier — a process crash): a crash between
+`AcquirePage` (zero-filled file) and the first store of a FRESH group on a fresh queue leaves (0, 0);
+the next start-up restores the group at consumed 0, i.e. sequence 0 is never handed to it. -/
+example : newGroup Variant.fixed (-1) (some (crashPage Meta.zero (newGroupStores Variant.fixed (-1) none) 0)) =
+    { consumed := 0, ack := 0 } ∧
+    newGroup Variant.fixed (-1) (some (crashPage Meta.zero (newGroupStores Variant.fixed (-1) none) 1)) =
+    { consumed := 0, ack := 0 } ∧
+    newGroup Variant.fixed (-1) (some (crashPage Meta.zero (newGroupStores Variant.fixed (-1) none) 2)) =
+    { consumed := -1, ack := -1 } := by decide
+
+/-- replica side: `IsEmpty` (appended ≤ ack) implies `Pending = 0` and, on ordered positions, that the
+group has consumed and acknowledged everything; the converse fails (`Neg.expire_on_pending_drops_unacked`) -/
+theorem isEmpty_implies_pending_zero (grp : Group) (app : Int) (ho : grp.ack ≤ grp.consumed ∧ grp.consumed ≤ app)
+    (he : grp.isEmpty app = true) : grp.pending app = 0 ∧ grp.consumed = app ∧ grp.ack = app := by
+  simp only [Group.isEmpty, decide_eq_true_eq] at he
+  refine ⟨?_, by omega, by omega⟩
+  unfold Group.pending
+  split <;> omega
+
+/-- the expiry loop of `partition.IsExpire` (pinned: stops a group only when `IsEmpty`): a group with
+anything unacknowledged stays live with its positions, the queue is untouched by the loop, and
+stopping an empty group does not change the candidate the next Sync computes. -/
+theorem expire_keeps_unacked_groups (v : Variant) (s : State) (gs : List Nat) (k : Nat) (grp : Group)
+    (hl : lookup s.live k = some grp) (hne : grp.ack < s.q.appended) :
+    lookup (expireLoop v false s gs).live k = some grp ∧ (expireLoop v false s gs).q = s.q :=
+  ⟨expireLoop_keeps_nonempty v gs s k grp hl (by simp [Group.isEmpty]; omega), expireLoop_q v false gs s⟩
+
+theorem stop_empty_group_keeps_sync_candidate (s : State) (g : Nat)
+    (h : ∀ grp, (g, grp) ∈ s.live → grp.isEmpty s.q.appended = true) :
+    minAck s.q.appended (erase s.live g) = minAck s.q.appended s.live :=
+  minAck_erase_empty _ _ g (fun grp hm => by have := h grp hm; simpa [Group.isEmpty] using this)
+
+/-- StopConsumerGroup + re-create, and groups created late (fix 33cf950 = `Variant.fixed`): the group
+`GetOrCreateConsumerGroup` puts into the map is at queue ack ≤ ack ≤ consumed; without a meta page it
+starts exactly at the queue ack; with one (a stopped group) its ack is the stored ack lifted to the
+queue ack and its consumed position the stored one lifted to that ack — so stored positions at or
+above the queue ack come back unchanged. From ANY state. -/
+theorem created_group_positions (v : Variant) (hv1 : v.liftConsumed = true) (hv2 : v.freshAtQueueAck = true)
+    (s : State) (g : Nat) (hnl : lookup s.live g = none) :
+    ∃ grp, lookup (step v s (.create g)).1.live g = some grp ∧ s.q.ack ≤ grp.ack ∧ grp.ack ≤ grp.consumed ∧
+      (lookup s.metas g = none → grp.ack = s.q.ack ∧ grp.consumed = s.q.ack) ∧
+      (∀ m, lookup s.metas g = some m →
+        grp.ack = (if m.ack < s.q.ack then s.q.ack else m.ack) ∧
+        grp.consumed = (if m.consumed < grp.ack then grp.ack else m.consumed)) := by
+  refine ⟨(newGroup v s.q.ack (lookup s.metas g)).toGroup, ?_, ?_⟩
+  · show lookup (s.create v g).live g = _
+    unfold State.create
+    rw [hnl]
+    exact lookup_upsert_self _ _ _
+  · cases hm : lookup s.metas g with
+    | none =>
+      have e : newGroup v s.q.ack none = { consumed := s.q.ack, ack := s.q.ack } := by simp [newGroup, hv2]
+      rw [e]
+      exact ⟨Int.le_refl _, Int.le_refl _, fun _ => ⟨rfl, rfl⟩, fun m h => by cases h⟩
+    | some m =>
+      have ea : (newGroup v s.q.ack (some m)).ack = if m.ack < s.q.ack then s.q.ack else m.ack := by
+        simp [newGroup, restoredAck]
+      have ec : (newGroup v s.q.ack (some m)).consumed =
+          if m.consumed < (newGroup v s.q.ack (some m)).ack then (newGroup v s.q.ack (some m)).ack else m.consumed := by
+        simp [newGroup, restoredConsumed, hv1]
+      refine ⟨?_, ?_, (fun h => by cases h), (fun m' h' => ?_)⟩
+      · show s.q.ack ≤ (newGroup v s.q.ack (some m)).ack
+        rw [ea]; split <;> omega
+      · show (newGroup v s.q.ack (some m)).ack ≤ (newGroup v s.q.ack (some m)).consumed
+        rw [ec]; split <;> omega
+      · cases h'
+        exact ⟨ea, ec⟩
+
+/-- the regenerated access tables (which shared field is read / written under which lock) are the
+ones the micro-step model mirrors: Consume's first load is unlocked and it delegates to consume();
+consume() loads, compares, stores and persists under `lock4headSeq.Lock`; Ack does all of its loads,
+its Store and both meta writes under `lock4headSeq.RLock` (⇒ `Shape.pinned`); Sync reads the acks
+without any group lock under `lock4map.RLock`; SetAppendedSeq only read-locks the map, SetSeq /
+SetConsumedSeq write-lock the group; Pending / IsEmpty read under the read lock. -/
+def toAccess (l : List (String × String × String)) : List Micro.Access :=
+  l.map (fun e => { rw := e.1, field := e.2.1, lock := e.2.2 })
+
+theorem access_tie :
+    Generated.C06.consumeOuterAccess = [("R", "consumedSeq", "-"), ("C", "NotEmpty", "-"), ("C", "consume", "-")] ∧
+    Generated.C06.consumeAccess = [("R", "consumedSeq", "lock4headSeq.Lock"), ("R", "queue.appendedSeq", "lock4headSeq.Lock"),
+      ("W", "consumedSeq", "lock4headSeq.Lock"), ("W", "metaPage", "lock4headSeq.Lock")] ∧
+    Generated.C06.ackAccess = [("R", "acknowledgedSeq", "lock4headSeq.RLock"), ("R", "consumedSeq", "lock4headSeq.RLock"),
+      ("W", "acknowledgedSeq", "lock4headSeq.RLock"), ("R", "consumedSeq", "lock4headSeq.RLock"),
+      ("W", "metaPage", "lock4headSeq.RLock"), ("R", "acknowledgedSeq", "lock4headSeq.RLock"),
+      ("W", "metaPage", "lock4headSeq.RLock"), ("C", "msync", "lock4headSeq.RLock")] ∧
+    Micro.shapeOfAccess (toAccess Generated.C06.ackAccess) = Micro.Shape.pinned ∧
+    Generated.C06.syncAccess = [("R", "queue.appendedSeq", "lock4map.RLock"), ("R", "acknowledgedSeq", "lock4map.RLock"),
+      ("W", "queue.acknowledgedSeq", "lock4map.RLock")] ∧
+    Generated.C06.fanOutSetAppendedAccess = [("W", "queue.appendedSeq", "lock4map.RLock"), ("C", "SetSeq", "lock4map.RLock")] ∧
+    Generated.C06.setSeqAccess = [("W", "consumedSeq", "lock4headSeq.Lock"), ("W", "acknowledgedSeq", "lock4headSeq.Lock"),
+      ("R", "consumedSeq", "lock4headSeq.Lock"), ("W", "metaPage", "lock4headSeq.Lock"),
+      ("R", "acknowledgedSeq", "lock4headSeq.Lock"), ("W", "metaPage", "lock4headSeq.Lock")] ∧
+    Generated.C06.setConsumedSeqAccess = [("W", "consumedSeq", "lock4headSeq.Lock"), ("R", "consumedSeq", "lock4headSeq.Lock"),
+      ("W", "metaPage", "lock4headSeq.Lock")] ∧
+    Generated.C06.pendingAccess = [("R", "consumedSeq", "lock4headSeq.RLock"), ("R", "queue.appendedSeq", "lock4headSeq.RLock")] ∧
+    Generated.C06.isEmptyAccess = [("R", "queue.appendedSeq", "lock4headSeq.RLock"), ("R", "acknowledgedSeq", "lock4headSeq.RLock")] ∧
+    Generated.C06.getOrCreateAccess = [("C", "NewConsumerGroup", "lock4map.Lock")] ∧
+    Generated.C06.stopGroupAccess = [("C", "Close", "lock4map.Lock"), ("W", "consumerGroups", "lock4map.Lock")] := by decide
+
+/-- meta page layout: every method writes the consumed position to `consumerGroupConsumedSeqOffset`
+(0) first and the ack to `consumerGroupAcknowledgedSeqOffset` (8) second — the store orders of
+`ackStores` / `consumeStores` / `setSeqStores` / `setConsumedStores` / `newGroupStores`; Ack and SetSeq
+re-read the positions for the write. -/
+theorem meta_layout_tie :
+    Generated.C06.ackPutArgs = ["uint64(f.ConsumedSeq())@consumerGroupConsumedSeqOffset",
+      "uint64(f.AcknowledgedSeq())@consumerGroupAcknowledgedSeqOffset"] ∧
+    Generated.C06.consumePutArgs = ["uint64(headSeq)@consumerGroupConsumedSeqOffset"] ∧
+    Generated.C06.setSeqPutArgs = Generated.C06.ackPutArgs ∧
+    Generated.C06.setConsumedSeqPutArgs = ["uint64(f.ConsumedSeq())@consumerGroupConsumedSeqOffset"] ∧
+    Generated.C06.newConsumerGroupPutArgs = ["uint64(consumedSeq)@consumerGroupConsumedSeqOffset",
+      "uint64(ackSeq)@consumerGroupAcknowledgedSeqOffset"] ∧
+    Generated.C06.consumerGroupConsumedSeqOffset = 0 ∧ Generated.C06.consumerGroupAcknowledgedSeqOffset = 8 ∧
+    Generated.C06.consumerGroupConsumedSeqOffset + 8 ≤ Generated.C06.consumerGroupAcknowledgedSeqOffset ∧
+    Generated.C06.consumerGroupAcknowledgedSeqOffset + 8 ≤ Generated.C06.consumerGroupMetaSize := by decide
+
+/-- `Pending` = max 0 (appended − consumed), `IsEmpty` = appended ≤ ack; `partition.IsExpire` = Sync, GC,
+then for every group name: look it up, `IsEmpty` ⇒ stopReplicator, else keep (seeded c08-17 replaced
+the test by `Pending()`). -/
+theorem expire_tie :
+    Generated.C06.pendingConds = ["pending < 0"] ∧ Generated.C06.pendingReturns = ["0", "pending"] ∧
+    Generated.C06.isEmptyReturns = ["qh <= f.AcknowledgedSeq()"] ∧
+    essential ["log.Sync", "log.Queue().GC", "log.ConsumerGroupNames", "log.GetOrCreateConsumerGroup",
+      "consumerGroup.IsEmpty", "consumerGroup.Pending", "p.stopReplicator"] Generated.C06.isExpireCalls =
+      ["log.Sync", "log.Queue().GC", "log.ConsumerGroupNames", "log.GetOrCreateConsumerGroup", "consumerGroup.IsEmpty",
+       "p.stopReplicator"] ∧
+    Generated.C06.isExpireConds.getLast? = some "!consumerGroup.IsEmpty()" ∧
+    Generated.C06.isExpireLoop = ["call:log.GetOrCreateConsumerGroup", "if:continue", "call:p.stopReplicator"] := by decide
+
 /-! ## non-vacuity: the hypotheses are satisfied by non-trivial histories -/
 
 /-- decidable form of `Op.okAt` -/
@@ -991,6 +1229,65 @@ theorem skipped_group_at_startup_fails :
     s.q.ack = 2 ∧ bad.q.ack = 10 ∧ lookup bad.live 1 = some ⟨10, 10, false⟩ ∧
     good.q.ack = 2 ∧ lookup good.live 1 = some ⟨3, 2, false⟩ := by decide
 
+/-- seeded shape c06-20 (running minimum seeded with -1, negative = "not set"): with a never-acked
+group (ack -1) and a group at ack 9 the result depends on the iteration order, and in one order it is
+9 — beyond the smallest group ack; the modelled loop gives -1 in both orders. -/
+theorem sync_unset_sentinel_fails :
+    minAckUnset (-1) [(0, ⟨5, -1, false⟩), (1, ⟨9, 9, false⟩)] = 9 ∧
+    minAckUnset (-1) [(1, ⟨9, 9, false⟩), (0, ⟨5, -1, false⟩)] = -1 ∧
+    minAck 11 [(0, ⟨5, -1, false⟩), (1, ⟨9, 9, false⟩)] = -1 ∧
+    minAck 11 [(1, ⟨9, 9, false⟩), (0, ⟨5, -1, false⟩)] = -1 := by decide
+
+/-- seeded shape c06-19 in the micro-step model (`ackPersistLocked = false`): Ack stores, unlocks and
+loads the consumed position (0) for its meta write; the consumer runs a whole consume() (consumed 1,
+persisted); then Ack's stale 0 lands. All threads idle, memory says consumed 1, the meta page says 0.
+In the pinned shape the schedule is not enabled (consume() is blocked on the write lock). -/
+def microS19 : State := run Variant.fixed State.init [.create 0, .append 1, .append 1, .append 1, .consume 0]
+def microSched19 : List Micro.MOp :=
+  [.aLock 0 0, .aStore, .aLoadC, .cLoad 0, .cWake, .cLock, .cStore, .cPut, .aPut1, .aPut2]
+
+theorem micro_ack_persist_unlocked_fails :
+    (Micro.mrun Micro.Shape.pinned (Micro.MState.ofState microS19) microSched19).isNone = true ∧
+    (Micro.mrun { ackPersistLocked := false } (Micro.MState.ofState microS19) microSched19).map
+      (fun ms => (ms.quiet, ms.sh.grp 0)) = some (true, some ⟨1, 0, false⟩) ∧
+    (Micro.mrun { ackPersistLocked := false } (Micro.MState.ofState microS19) microSched19).map
+      (fun ms => (ms.sh.pg 0, ms.outs)) = some (some ⟨0, 0⟩, [(0, 1)]) := by decide
+
+/-- shape of seeded change c08-17 seen from the queue (expiry loop testing `Pending() == 0`): group 1
+has consumed everything but acknowledged only 3; the loop stops it; Sync then moves the queue ack to
+11 and the re-created group comes back at (11, 11): sequences 4..11, never acknowledged by the
+follower, are refused by Get. With the pinned test (`IsEmpty`) group 1 stays live at (11, 3) and the
+queue ack stays 3. -/
+theorem expire_on_pending_drops_unacked :
+    let s := run Variant.fixed State.init ([.create 0, .create 1] ++ rep 12 (.append 1) ++ rep 12 (.consume 0) ++
+      [.ack 0 11] ++ rep 12 (.consume 1) ++ [.ack 1 3])
+    let bad := run Variant.fixed (s.expire Variant.fixed true) [.create 0, .sync, .create 1]
+    let good := run Variant.fixed (s.expire Variant.fixed false) [.create 0, .sync, .create 1]
+    bad.q.ack = 11 ∧ lookup bad.live 1 = some ⟨11, 11, false⟩ ∧ bad.q.get 4 = .outOfRange ∧
+    good.q.ack = 3 ∧ lookup good.live 1 = some ⟨11, 3, false⟩ ∧ good.q.get 4 = .ok 1 := by decide
+
 end Neg
+
+/-! ## observations outside the statement -/
+namespace Obs
+
+/-- inside an explicit index reset (outside clause (1) and the queue-ack clause as stated — at the
+moment Sync moves the queue ack it IS at the minimum of the groups' acks): Sync has scanned the groups
+(candidate 8), `FanOutQueue.SetAppendedSeq 2` resets the queue to (2, 2), ten Puts arrive, Sync's final
+`SetAcknowledgedSeq 8` now passes its guard (8 > 2, 8 ≤ 12), then the groups are reset to (2, 2):
+the queue ack ends at 8 above every group's ack 2. Needs Puts racing the reset; both methods only
+read-lock `lock4map` (`access_tie`). Not reported as a finding. -/
+def resetS0 : State := run Variant.fixed State.init ([.create 0, .create 1] ++ rep 11 (.append 1) ++ rep 11 (.consume 0) ++
+  rep 11 (.consume 1) ++ [.ack 0 8, .ack 1 9])
+def resetSched : List Micro.MOp := [.sLock, .sVisit 1, .sVisit 0, .rQueue 2] ++ List.replicate 10 .put ++
+  [.sSet, .rSeq1 0, .rSeq2, .rSeq1 1, .rSeq2, .rUnlock]
+
+theorem index_reset_races_sync :
+    ((Micro.mrun Micro.Shape.pinned (Micro.MState.ofState resetS0) resetSched).map
+      (fun ms => (ms.quiet, ms.sh.qack, ms.sh.appended, ms.sh.grp 0, ms.sh.grp 1)) :
+        Option (Bool × Int × Int × Option Group × Option Group)) =
+      some (true, 8, 12, some ⟨2, 2, false⟩, some ⟨2, 2, false⟩) := by decide
+
+end Obs
 
 end LinVerif.Props.C06
